@@ -31,7 +31,7 @@ SHIFT = ("<<", ">>")
 BINARY_OPS = ARITH + COMPARE + BITWISE + SHIFT
 OP_NAME = {"+": "add", "-": "sub", "*": "mul", "/": "div", "%": "rem", "<": "lt", "<=": "le", ">": "gt",
            ">=": "ge", "==": "eq", "!=": "ne", "&": "and", "|": "or", "xor": "xor", "<<": "shl", ">>": "shr",
-           "neg": "neg", "!": "not"}
+           "neg": "neg", "!": "not", "negneg": "negneg", "notnot": "notnot"}
 
 # Self-validation of the oracles (docs/notes_C05_C06.md): VERIF_MODEL_BREAK deliberately falsifies one cell of
 # this model so that the engines must fire.  Never set in a real run (the engines report it in `assumptions`).
@@ -223,7 +223,14 @@ def _compare(op, lk, x, rk, y):
 
 
 def unary(op, a):
-    """`neg` (unary minus) on numbers, `!` on booleans."""
+    """`neg` (unary minus) on numbers, `!` on booleans; `negneg` / `notnot`: the operator applied twice (each
+    application is evaluated: `-(-x)` fails when `-x` is not representable)."""
+    if op in ("negneg", "notnot"):
+        inner = "neg" if op == "negneg" else "!"
+        r = unary(inner, a)
+        if r[0] != "ok":
+            return r
+        return unary(inner, (r[1], r[2]))
     k, x = a
     if op == "neg":
         if k == "float":
